@@ -14,7 +14,7 @@ C30 = dict(
         "C30_mod_init_changes_only_that_global", "C30_mod_init_emission",
         "C30_data_section_exact", "C30_export_section_exact", "C30_global_section_exact", "C30_memory_section_exact",
         "C30_add_global_end_to_end", "C30_add_globals_sequence", "C30_base_globals_clean",
-        "C30_agree_is_equality", "C30_checker_sound_data"]],
+        "C30_agree_is_equality", "C30_checker_sound_data", "C30_returned_ids_designate_the_added_items"]],
     quick=dict(n=1500), thorough=dict(n=30000), per_shard=300,
     rule="generated valid base modules (0-5 imports of all five kinds with random global / memory types, 1-3 local functions, 0-3 local globals of seven value types incl. global.get / ref.func / ref.null "
          "initialisers, 0-2 local memories (multi-memory, memory64, shared, custom page size), exports of four kinds, active (constant and global.get offsets) and passive data, optional data count) "
@@ -26,8 +26,10 @@ C30 = dict(
     level_text="Proof (Coq, all requests, no bound): the model of InitExpr::to_wasmencoder_type decodes back to the request bit for bit for every InitInstr form (u128-as-i128 wrap lemma in Base/Wrap.v) and is injective; "
                "add_global / add_local_memory / add_data / add_export append exactly one item and return its position, lifted over histories of any length by induction; mod_global_init_expr changes exactly one "
                "initialiser (state and emission level); every data segment / export / global / memory of the model's output is the stored request; on every freshly parsed module add_global (and any sequence of add_global with constant / ref.null initialisers) yields the old module plus exactly the requested globals, ids consecutive and mapped to themselves; agree is equality, hence an added data segment is in the "
-               "*observed* output at the returned id with exactly the requested bytes for every history. Partial for the index-space part (returned ids designate the items after imports are added / entities deleted): "
-               "decided per history in Coq on the decoded real output by the handle specification; no known class is left (D03 -- global exports copied instead of re-indexed --, D06 -- a deleted added import stayed in the index space --, D24 -- an iterator-level add_global was not counted, so the id of a following add_imported_global collided -- and D30 / class 300 -- DataType::FuncRef / ExternRef were declared as the nullable funcref / externref -- are repaired; their former witnesses are the positive examples C30_former_D03_witness_holds / C30_former_D06_witness_holds / C30_former_D24_witness_holds / C30_former_D30_witness_holds).",
+               "*observed* output at the returned id with exactly the requested bytes for every history. Index-space part, proved on the model (C30_returned_ids_designate_the_added_items, over the wf invariant and the binding "
+               "theorem of the re-indexing engine): from every parsed module and every earlier history, the id returned by add_global (module or iterator level) / add_local_memory designates the added item after ANY later history "
+               "that does not delete that very item, and the encoder maps it to the index at which the index space holds that item; on the real output the same statement is decided per history in Coq "
+               "by the handle specification; no known class is left (D03 -- global exports copied instead of re-indexed --, D06 -- a deleted added import stayed in the index space --, D24 -- an iterator-level add_global was not counted, so the id of a following add_imported_global collided -- and D30 / class 300 -- DataType::FuncRef / ExternRef were declared as the nullable funcref / externref -- are repaired; their former witnesses are the positive examples C30_former_D03_witness_holds / C30_former_D06_witness_holds / C30_former_D24_witness_holds / C30_former_D30_witness_holds).",
     level_note=NOTE, trusted_base=TB,
     technique="Coq theorems over a hand-written model + independent executable specification evaluated in Coq on the real decoded output + refutation witnesses",
     design_ref="5/C30",
@@ -46,7 +48,8 @@ C12 = dict(
     theorems=[("C12", t) for t in [
         "C12_finish_appends_one_end", "C12_declared_locals_exact", "C12_type_table_invariant", "C12_build_step_exact", "C12_function_section_exact",
         "C12_built_function_emitted", "C12_agree_is_equality", "C12_checker_sound_first_build",
-        "C12_build_needs_balance", "C12_base_balanced", "C12_balance_kept_by_every_call", "C12_finish_module_never_fails"]],
+        "C12_build_needs_balance", "C12_base_balanced", "C12_balance_kept_by_every_call", "C12_finish_module_never_fails",
+        "C12_returned_id_refers_to_the_built_function"]],
     quick=dict(n=1000), thorough=dict(n=30000), per_shard=100,
     rule="generated valid base modules (1-3 pairwise distinct function types, 0-3 imports of four kinds, 1-3 local functions with declared local groups and optional names) and histories of 1-6 operations: "
          "FunctionBuilder::new with random signatures (0-3 params, 0-2 results over i32 i64 f32 f64 v128 funcref externref (ref func) (ref extern), a quarter of them a signature already in the type section), "
@@ -58,8 +61,10 @@ C12 = dict(
     level_text="Proof (Coq, all signatures / local lists / instruction sequences / histories, no bound): finish appends exactly one End and keeps the name; the local groups expand to the requested list with consecutive ids "
                "(from the C14 theorems); the type stored at the function's type id is the requested signature for every hash order of the parsed types (from the C13 dedup theorems); one build appends exactly one function "
                "item whose id is returned; the model's function/code sections are the stored payloads, so a built function is emitted with exactly the requested types, locals and body ++ [end] wherever the index space puts "
-               "it, and -- agree being equality -- so is it in the observed output; finish_module succeeds iff functions.len() = num_local_functions + imports.num_funcs, every parsed module satisfies it and every API call keeps it (convert_local_fn_to_import takes one off num_local_functions since the repair of D08), so finish_module never fails after any history. Partial for the index-space "
-               "part (returned id and name refer to the function after import additions / deletions): decided per history in Coq on the decoded real output; no known class left (D02 -- import section order vs index order --, D06 -- a deleted added import stayed in the index space -- and D08 -- finish_module panicked after a conversion -- are repaired; C12_former_D02_witness_holds, C12_former_D08_witness_holds).",
+               "it, and -- agree being equality -- so is it in the observed output; finish_module succeeds iff functions.len() = num_local_functions + imports.num_funcs, every parsed module satisfies it and every API call keeps it (convert_local_fn_to_import takes one off num_local_functions since the repair of D08), so finish_module never fails after any history. Index-space part, proved on the model "
+               "(C12_returned_id_refers_to_the_built_function, over the wf invariant and the binding theorem of the re-indexing engine): from every parsed module and every earlier history, the id a build returned designates the built "
+               "function after ANY later history of builds, import additions, deletions and conversions of other functions, and the encoder maps it to the index at which the index space holds that function; on the real output "
+               "(returned id and name refer to the function) the statement is decided per history in Coq on the decoded output; no known class left (D02 -- import section order vs index order --, D06 -- a deleted added import stayed in the index space -- and D08 -- finish_module panicked after a conversion -- are repaired; C12_former_D02_witness_holds, C12_former_D08_witness_holds).",
     level_note=NOTE, trusted_base=TB12,
     technique="Coq theorems over a hand-written model (reusing the C13 / C14 developments) + independent executable specification evaluated in Coq on the real decoded output + refutation witness",
     design_ref="5/C12", harness_prop="C12",
